@@ -132,10 +132,55 @@ let print_events ln (evs : event list) =
       | EBad n -> Printf.sprintf "MODEL-UNDEFINED %d" (int_of_n n)
     in Printf.printf "%d %s\n" ln s) evs
 
+(* ---- Arduino mode: model --arduino <script> ---- *)
+let rec nat_of_int i = if i <= 0 then O else S (nat_of_int (i - 1))
+let acls_of = function
+  | "s128_128" -> AS128 (nat_of_int 1) | "s128_256" -> AS128 (nat_of_int 2) | "s128_384" -> AS128 (nat_of_int 3)
+  | "s128_256t" -> AS128T (nat_of_int 1) | "s128_384t" -> AS128T (nat_of_int 2)
+  | "s64_64" -> AS64 (nat_of_int 1) | "s64_128" -> AS64 (nat_of_int 2) | "s64_192" -> AS64 (nat_of_int 3)
+  | "s64_128t" -> AS64T (nat_of_int 1) | "s64_192t" -> AS64T (nat_of_int 2)
+  | "mantis8" -> AM8
+  | "ctr_s128_128" -> ACTR (nat_of_int 1) | "ctr_s128_256" -> ACTR (nat_of_int 2) | "ctr_s128_384" -> ACTR (nat_of_int 3)
+  | "ctr_s128_256t" -> ACTRT (nat_of_int 1) | "ctr_s128_384t" -> ACTRT (nat_of_int 2)
+  | s -> failwith ("bad class " ^ s)
+let aparse toks : aop =
+  match toks with
+  | ["new"; c; id] -> ANew (acls_of c, num id)
+  | [id; "setkey"; h] -> ASetKey (num id, bytes_of_hex h)
+  | [id; "settweak"; h; n] -> ASetTweak (num id, buf_of_hex h, nat_of_int (int_of_string n))
+  | [id; "enc"; h] -> AEnc (num id, bytes_of_hex h)
+  | [id; "dec"; h] -> ADec (num id, bytes_of_hex h)
+  | [id; "swap"] -> ASwap (num id)
+  | [id; "clear"] -> AClear (num id)
+  | [id; "setiv"; h] -> ASetIV (num id, bytes_of_hex h)
+  | [id; "setctrsize"; n] -> ASetCtrSize (num id, nat_of_int (int_of_string n))
+  | [id; "crypt"; h] -> ACrypt (num id, bytes_of_hex h)
+  | _ -> failwith ("bad arduino line: " ^ String.concat " " toks)
+let arduino_main file =
+  let ic = open_in file in
+  let w = ref [] and ln = ref 0 in
+  (try while true do
+      let line = String.trim (input_line ic) in
+      incr ln;
+      if line <> "" && line.[0] <> '#' then begin
+        let o = aparse (List.map subst (String.split_on_char ' ' line)) in
+        let (w', ev) = astep !w o in
+        w := w';
+        (match o, ev with
+         | ANew _, _ -> ()
+         | _, ARet b -> Printf.printf "%d ret %d\n" !ln (if b then 1 else 0)
+         | _, AOut o -> Hashtbl.replace saved !ln (hex_of_bytes o); Printf.printf "%d out %s\n" !ln (hex_of_bytes o)
+         | _, ADone -> Printf.printf "%d done\n" !ln
+         | _, ABad -> Printf.printf "%d MODEL-UNDEFINED\n" !ln);
+        flush stdout
+      end
+    done with End_of_file -> ())
+
 (* usage: model <script> [has128 has256 maxleaf l1ecx l1edx l7ebx0 l7ebxN xcr0]
    — the build switches of the library under test and the real CPU as the
    driver's `cpuinfo` mode reports it (hex) *)
 let () =
+  if Array.length Sys.argv > 2 && Sys.argv.(1) = "--arduino" then (arduino_main Sys.argv.(2); exit 0);
   let ic = if Array.length Sys.argv > 1 && Sys.argv.(1) <> "-" then open_in Sys.argv.(1) else stdin in
   let arg i d = if Array.length Sys.argv > i then Sys.argv.(i) else d in
   let bld = { has128 = arg 2 "1" = "1"; has256 = arg 3 "1" = "1" } in
